@@ -231,3 +231,39 @@ def neg_fact(f):
                 out.append(('or', alts))
         return out
     return None
+
+
+def has_room_fact(fn, facts_list):
+    """one of the facts says `X.size() != X.capacity()` / `X.size() < X.capacity()` (in either operand order, possibly through a named
+    local condition): the test that makes an insert into a fixed-capacity pl_list safe"""
+    from .core import callee_name, short, show
+    for f in expand_locals(fn, facts_list):
+        if f[0] != 'cmp':
+            continue
+        l, r = strip(f[2]), strip(f[3])
+        names = (short(callee_name(l)), short(callee_name(r)))
+        if names == ('size', 'capacity') and f[1] in ('!=', '<') or names == ('capacity', 'size') and f[1] in ('!=', '>'):
+            if l.get('obj') is not None and r.get('obj') is not None and show(l['obj']) == show(r['obj']):
+                return True
+    return False
+
+
+def minlike(e):
+    """the two operands when e computes their minimum: std::min(a, b), (a < b ? a : b), (a > b ? b : a) and the <= / >= forms"""
+    from .core import callee_name, short, show
+    e = strip(e)
+    if e is not None and 'callee' in e and short(callee_name(e)) == 'min' and len(e.get('a', [])) == 2:
+        return strip(e['a'][0]), strip(e['a'][1])
+    if e is None or e.get('k') != 'ConditionalOperator':
+        return None
+    lits = [f for f in literals(e['cnd'], True) if f[0] == 'cmp']
+    if len(lits) != 1:
+        return None
+    _, op, cl, cr = lits[0]
+    l, r = show(strip(e['l'])), show(strip(e['r']))
+    a, b = show(strip(cl)), show(strip(cr))
+    if op in ('<', '<=') and (l, r) == (a, b):
+        return strip(e['l']), strip(e['r'])
+    if op in ('>', '>=') and (l, r) == (b, a):
+        return strip(e['l']), strip(e['r'])
+    return None
